@@ -190,7 +190,7 @@ def default_match(finding, cls):
 
 # ----------------------------------------------------------------------------- replay
 def write_replay(pid, slot, tier, seed):
-    d = os.path.join(target.VERIF, "replays", pid)
+    d = os.path.join(target.OUT, "replays", pid)
     os.makedirs(d, exist_ok=True)
     ex = slot["examples"][0]
     key = json.dumps(codec.enc(slot["cls"]), sort_keys=True, ensure_ascii=False)
@@ -274,7 +274,7 @@ def write_evidence(mod, report, tier, seed, wall, n_viol, known_hit, flaky):
         "coverage": cov, "assumptions": list(getattr(mod, "ASSUMPTIONS", [])),
         "wall_s": round(wall, 2), "violations": n_viol,
     }
-    d = os.path.join(target.VERIF, "evidence")
+    d = os.path.join(target.OUT, "evidence")
     os.makedirs(d, exist_ok=True)
     tmp = os.path.join(d, ".%s.json.tmp" % pid)
     with open(tmp, "w", encoding="utf-8") as f:
